@@ -451,9 +451,11 @@ func (mux *ServeMux) ErrorReports() <-chan *ErrorReport {
 // ServeDIAM dispatches the request to the handler that match the code
 // in the incoming message. If the special "ALL" handler is registered
 // it is used as a catch-all. Otherwise an ErrorReport is sent out.
+//
+// The mux lock is held only while a handler is looked up, never while it
+// runs: a handler that blocks must not keep Handle, and with it every other
+// connection's dispatch, waiting.
 func (mux *ServeMux) ServeDIAM(c Conn, m *Message) {
-	mux.mu.RLock()
-	defer mux.mu.RUnlock()
 	dcmd, err := m.Dictionary().FindCommand(
 		m.Header.ApplicationID,
 		m.Header.CommandCode)
@@ -468,7 +470,9 @@ func (mux *ServeMux) ServeDIAM(c Conn, m *Message) {
 		m.Header.ApplicationID,
 		m.Header.CommandCode,
 		m.Header.CommandFlags&RequestFlag == RequestFlag}
+	mux.mu.RLock()
 	_, ok := mux.idxMap[idx]
+	mux.mu.RUnlock()
 	if ok {
 		mux.serveIdx(idx, c, m)
 		return
@@ -484,13 +488,13 @@ func (mux *ServeMux) ServeDIAM(c Conn, m *Message) {
 }
 
 func (mux *ServeMux) serveIdx(cmd CommandIndex, c Conn, m *Message) {
+	mux.mu.RLock()
 	entry, ok := mux.idxMap[cmd]
-	if ok {
-		entry.h.ServeDIAM(c, m)
-		return
+	if !ok {
+		// Try catch-all.
+		entry, ok = mux.idxMap[ALL_CMD_INDEX]
 	}
-	// Try catch-all.
-	entry, ok = mux.idxMap[ALL_CMD_INDEX]
+	mux.mu.RUnlock()
 	if ok {
 		entry.h.ServeDIAM(c, m)
 		return
@@ -503,13 +507,13 @@ func (mux *ServeMux) serveIdx(cmd CommandIndex, c Conn, m *Message) {
 }
 
 func (mux *ServeMux) serve(cmd string, c Conn, m *Message) {
+	mux.mu.RLock()
 	entry, ok := mux.m[cmd]
-	if ok {
-		entry.h.ServeDIAM(c, m)
-		return
+	if !ok {
+		// Try catch-all.
+		entry, ok = mux.idxMap[ALL_CMD_INDEX]
 	}
-	// Try catch-all.
-	entry, ok = mux.idxMap[ALL_CMD_INDEX]
+	mux.mu.RUnlock()
 	if ok {
 		entry.h.ServeDIAM(c, m)
 		return
